@@ -32,6 +32,9 @@ func typeID(t types.Type) string {
 	if t == nil {
 		return ""
 	}
+	if a, ok := t.(*types.Alias); ok {
+		return typeID(types.Unalias(a))
+	}
 	id := types.TypeString(t, nil)
 	if _, ok := typeTab[id]; ok {
 		return id
